@@ -11,7 +11,7 @@ use scratchstack_aws_signature::canonical::{canonicalize_query_to_string, query_
 use serde::{Deserialize, Serialize};
 use serde_json::json;
 
-pub const RULE: &str = "enumerated completely: every byte 0-255 as a parameter name and as a value in every spelling (literal where a string allows it, %HH, %hh, '+'); every ordering of every 2- and 3-element subset of a prefix-related name set {a, a-, a., a0, a%, a=, aa, A, a~, ''} (separator bytes below and above '='); generated: parameter multisets with clustered names, two independent orders/spellings/'&&' paddings/missing '=' of each, raw random query strings. Oracle: crate output == reference (once-encoded pairs sorted by (name, value) bytewise, X-Amz-Signature removed, '&'-joined) or both fail with MalformedQueryString/400; two spellings/orders of one multiset give the same string; decoding the output yields exactly the input multiset minus X-Amz-Signature; the output over a corpus is identical in >= 8 (quick) / 32 (thorough) freshly spawned processes (different hash seeds). Non-trivial: >= 2 parameters and (repeated name, prefix-related names, empty name/value, escaped byte or '+'); distinct by canonical multiset.";
+pub const RULE: &str = "enumerated completely: every byte 0-255 as a parameter name and as a value in every spelling (literal where a string allows it, %HH, %hh, '+'); every two-character escape %xy over all 128x128 ASCII pairs in name and value position plus the truncated forms; every ordering of every 2- and 3-element subset of a prefix-related name set {a, a-, a., a0, a%, a=, aa, A, a~, ''} (separator bytes below and above '='); generated: parameter multisets with clustered names, two independent orders/spellings/'&&' paddings/missing '=' of each, raw random query strings. Oracle: crate output == reference (once-encoded pairs sorted by (name, value) bytewise, X-Amz-Signature removed, '&'-joined) or both fail with MalformedQueryString/400; two spellings/orders of one multiset give the same string; decoding the output yields exactly the input multiset minus X-Amz-Signature; the output over a corpus is identical in >= 8 (quick) / 32 (thorough) freshly spawned processes (different hash seeds). Non-trivial: >= 2 parameters and (repeated name, prefix-related names, empty name/value, escaped byte or '+'); distinct by canonical multiset.";
 
 #[derive(Clone, Debug, Serialize, Deserialize, PartialEq, Eq)]
 pub struct RawQuery {
@@ -28,6 +28,7 @@ pub struct Multiset {
 pub fn subs() -> Vec<Box<dyn AnySub>> {
     vec![
         Box::new(EnumSub { name: "every-byte", exhaustive: true, list: byte_list, check: check_raw }),
+        Box::new(EnumSub { name: "every-escape", exhaustive: true, list: escape_list, check: check_raw }),
         Box::new(EnumSub { name: "prefix-orderings", exhaustive: true, list: ordering_list, check: check_raw }),
         Box::new(Sub {
             name: "multiset",
@@ -49,6 +50,9 @@ fn raw_query() -> BoxedStrategy<RawQuery> {
         1 => Just("%zz".to_string()),
         1 => Just("X-Amz-Signature".to_string()),
         1 => Just("X-Amz-Signature=abc".to_string()),
+        1 => Just("x-amz-signature=abc".to_string()),
+        1 => Just("X-AMZ-SIGNATURE".to_string()),
+        1 => Just("X-Amz-Signature2=1".to_string()),
         10 => "[a-zA-Z0-9._~-]{1,3}",
         3 => "[ -~]{1,2}",
         2 => any::<u8>().prop_map(|b| format!("%{:02X}", b)),
@@ -71,6 +75,22 @@ fn byte_list(_t: Tier) -> Vec<RawQuery> {
                 out.push(RawQuery { query: ctx.replace("{}", &s) });
             }
         }
+    }
+    out
+}
+
+fn escape_list(_t: Tier) -> Vec<RawQuery> {
+    let mut out = Vec::new();
+    for x in 0u8..128 {
+        for y in 0u8..128 {
+            if x == b'&' || y == b'&' {
+                continue;
+            }
+            out.push(RawQuery { query: format!("n%{}{}=v", x as char, y as char) });
+            out.push(RawQuery { query: format!("n=v%{}{}w&a=1", x as char, y as char) });
+        }
+        out.push(RawQuery { query: format!("n=v%{}", x as char) });
+        out.push(RawQuery { query: format!("n%{}", x as char) });
     }
     out
 }
